@@ -6,20 +6,23 @@ from pbt.core import plrun
 from pbt.gen import programs as gp
 from pbt.ref import semantics as sem
 from pbt.ref import c20_worlds as cw
+from pbt.ref import c20_locate
 
 PROPERTY_ID = "C20"
 LEVEL = "exploration"
 RULE = (
     "Programs: C01-style generated ASTs (pbt.gen.programs.programs, probabilities from a grid without 0.0/1.0 for "
     "probabilistic facts and rules; AD heads in tenths incl. 0.0 and residual 0) that contain >= 1 evidence "
-    "statement; no negated queries. Each program is run in two variants - 'noq' (query/1 statements removed: every "
+    "statement; no negated queries; generator bias: every program meeting the non-trivial rule is kept, of the "
+    "others one in three (deterministic in the program). Each program is run in two variants - 'noq' (query/1 statements removed: every "
     "choice atom is reported) and 'q' (queries kept: output restricted to the query atoms) - through the two "
     "modes exactly as the CLI does: mpe_maxsat(LogicDAG.createFrom(model, avoid_name_clash=True, label_all=True, "
     "labels=[('output',1)])) and mpe_semiring(LogicFormula.create_from(model, label_all=True, "
     "avoid_name_clash=True)). "
     "Oracle (brute force over the worlds of the reference semantics, restricted to the choices relevant to evidence "
     "[+ queries in 'q']). CHOICE SET D: the probabilistic atoms of the tool's own ground program (read from the "
-    "LogicDAG before solving, mapped to reference choice values by name, clause-variable values and probability): "
+    "LogicDAG before solving; mapped to reference choice values by atom name / AD group (clause-variable values), "
+    "head index, head atom and probability): "
     "a probabilistic fact is a two-valued choice; a ground AD instance is a choice between its grounded heads and "
     "one 'rest' value (extra node / negative literal) that merges 'no head' with the heads that are not part of "
     "the ground program; a choice without any atom in D is marginalised (factor 1). P_D(w) = product over choices "
@@ -29,7 +32,9 @@ RULE = (
     "of them true and #negative false; semiring returns a set -> only-positive = all true, only-negative = all "
     "false, both = at least one each); maxsat-'q': truth values of the query atoms. Required: (1) some world of E "
     "agrees with T; (2) some such world w has P_D(w) >= (1-tol)*max_{E} P_D; (3) the reported probability equals "
-    "P_D(w) for such a w (rel. 1e-9); (4) 'noq' only: every positive-probability world that agrees with T satisfies "
+    "P_D(w) for such a w (rel. 1e-9; semiring mode, whose NNF may omit atoms the evidence formula does not need: each "
+    "choice of D on which the evidence does not depend may either be counted at a most probable value or be left "
+    "out, in (2) and (3)); (4) 'noq' only: every positive-probability world that agrees with T satisfies "
     "the evidence (T decides the evidence). tol: semiring 1e-9; maxsat exp(|D|*1e-4)-1 (soft-clause weights are "
     "int(max(-1e4, ln p)*1e4): truncation error < 1 unit = 1e-4 nats per atom of D). Evidence false in every world "
     "(also the zero-probability ones): must be reported as unsatisfiable (UnsatisfiableError, facts=None, "
@@ -196,7 +201,11 @@ def judge(prog, variant, mode, src):
         return Failure("prob-for-zero-evidence", "%s %s: evidence has probability 0 but the tool reports "
                        "probability %r literals %s\n%s" % (mode, variant, prob, lit_txt, src),
                        sig=tag + "prob-for-zero-evidence"), None, info
-    _per_atom, by_name, dref, unmapped = cw.map_atoms(atoms or [], lay)
+    try:
+        stmt_map = c20_locate.statement_map(src)
+    except Exception:  # noqa - the tool itself accepted the program; fall back to name matching
+        stmt_map = None
+    _per_atom, by_name, dref, unmapped = cw.map_atoms(atoms or [], lay, stmt_map)
     if unmapped:
         return None, "unmapped-atom", info
     if mode == "maxsat":
@@ -226,9 +235,19 @@ def judge(prog, variant, mode, src):
                            "world %s which violates the evidence\n%s" % (
                                mode, variant, lit_txt, prob, cw.describe_world(lay, w), src),
                            sig=tag + "evidence-not-decided"), None, info
+    # Choices of D on which the evidence does not depend at all.  The MaxSAT mode multiplies the weights of all
+    # atoms of the DAG it was given (D is exact).  The semiring mode evaluates an NNF that it builds itself and that
+    # can lack atoms the top-level formula does not need: each evidence-independent choice may be counted (at its
+    # most probable value) or left out (factor 1).
+    irr = []
+    if mode == "semiring":
+        irr = [ci for ci in lay.choices if dref.get(ci) and lay.independent(E_all, ci)]
+    rel_table = dict(table)
+    for ci in irr:
+        rel_table[ci] = [1] * len(table[ci])
     pw = {}
     for w in cw.iter_bits(E):
-        pw[w] = cw.world_block_prob(lay, table, w)
+        pw[w] = cw.world_block_prob(lay, rel_table, w)
     opt = max(pw.values())
     best_w = max(cw.iter_bits(W), key=lambda w: pw[w])
     if float(pw[best_w]) < (1.0 - tol) * float(opt):
@@ -238,16 +257,23 @@ def judge(prog, variant, mode, src):
                            mode, variant, lit_txt, pw[best_w], float(pw[best_w]), cw.describe_world(lay, wopt), opt,
                            float(opt), prob, tol, src), sig=tag + "not-optimal"), None, info
     ok = False
+    seen_values = set()
     for w in cw.iter_bits(W):
-        if float(pw[w]) >= (1.0 - tol) * float(opt) and plrun.close(prob, float(pw[w])):
+        if float(pw[w]) < (1.0 - tol) * float(opt):
+            continue
+        products = [float(pw[w])]
+        for ci in irr:
+            pv = float(table[ci][lay.value(ci, w)])
+            if pv >= (1.0 - tol) * float(max(table[ci])):
+                products = products + [x * pv for x in products]
+        seen_values.update(products)
+        if any(plrun.close(prob, x) for x in products):
             ok = True
             break
     if not ok:
         return Failure("prob-mismatch", "%s %s: reported probability %r but the near-optimal worlds agreeing with the "
-                       "reported literals %s have probability %s (optimum %r)\n%s" % (
-                           mode, variant, prob, lit_txt,
-                           sorted(set(float(pw[w]) for w in cw.iter_bits(W)
-                                      if float(pw[w]) >= (1.0 - tol) * float(opt)))[:6], float(opt), src),
+                       "reported literals %s have probability %s (optimum over the evidence-relevant choices %r)\n%s" % (
+                           mode, variant, prob, lit_txt, sorted(seen_values)[:8], float(opt), src),
                        sig=tag + "prob-mismatch"), None, info
     return late, None, info
 
@@ -469,7 +495,7 @@ KNOWN_CLASSES = {
 }
 
 SUBCHECKS = [
-    SubCheck("maxsat", make_check("maxsat"), strategy=_strategy, budget={"quick": 500, "thorough": 10000},
+    SubCheck("maxsat", make_check("maxsat"), strategy=_strategy, budget={"quick": 400, "thorough": 10000},
              timeout={"quick": 10, "thorough": 30}, render=render),
     SubCheck("semiring", make_check("semiring"), strategy=_strategy, budget={"quick": 500, "thorough": 10000},
              timeout={"quick": 10, "thorough": 30}, render=render),
